@@ -163,7 +163,8 @@ def matrix(case, ctx):
 
 
 # ---------------------------------------------------------------------------
-# dishonest peers: pure-Python scripted TLS 1.2 / TLCP endpoints (vlib/peer12.py) that deviate from the protocol state machine while
+# dishonest peers: pure-Python scripted TLS 1.2 / TLCP (vlib/peer12.py) and TLS 1.3 (vlib/peer13.py) endpoints that deviate from the protocol state machine while
 # keeping master secret, keys and Finished consistent with what they sent
-from props.c09x import scripted12
+from props.c09x import scripted12, scripted13
 scripted12.register(P)
+scripted13.register(P)
